@@ -790,11 +790,13 @@ async fn run_stream_script(ncallers: usize, idle_ms: u64, steps: Vec<Step>) -> S
     let completions = Arc::new(Mutex::new(vec![0u32; ncallers]));
     let mut callers = Vec::new();
     let mut wr_open = true;
+    let mut nsub = 0usize;
     let mut conn = Some(conn);
     for s in &steps {
         match s {
             Step::Submit(k) => {
                 let k = *k;
+                nsub += 1;
                 if let Some(c) = &conn {
                     let mut g = SendRequest::send_request(c, request_for(&question(k)));
                     let (results, completions) = (results.clone(), completions.clone());
@@ -805,7 +807,12 @@ async fn run_stream_script(ncallers: usize, idle_ms: u64, steps: Vec<Step>) -> S
                     }));
                 }
             }
-            Step::Settle => tokio::time::sleep(Duration::from_millis(3)).await,
+            Step::Settle => {
+                // let everything run; on a loaded machine give the requests more time to reach the peer
+                tokio::time::sleep(Duration::from_millis(3)).await;
+                let mut extra = 0;
+                while wr_open && seen.lock().unwrap().len() < nsub && extra < 40 { tokio::time::sleep(Duration::from_millis(5)).await; extra += 1; }
+            }
             Step::Sleep(ms) => tokio::time::sleep(Duration::from_millis(*ms)).await,
             Step::Reply(k, v) => if wr_open { if let Some(id) = wire_id(&seen, *k) { wr_open = frame(&mut wr, &reply(*v, id, &question(*k), false)).await; } },
             Step::Cross(a, b) => if wr_open { if let Some(id) = wire_id(&seen, *a) { wr_open = frame(&mut wr, &reply(b'G', id, &question(*b), false)).await; } },
@@ -967,7 +974,12 @@ fn part_stream(out: &mut Out, r: &mut Rng, a: &Args) -> (u64, u64) {
     ];
     for _ in 0..n { scripts.push(gen_stream_script(r)); }
     if !timeouts_work {
-        for sc in scripts.iter_mut() { for st in sc.2.iter_mut() { if matches!(st, Step::Silence) { *st = Step::Close; } } }
+        // without a working response timeout a request that is still pending at the
+        // end of a script would only end after 19 s: close the connection instead
+        for sc in scripts.iter_mut() {
+            for st in sc.2.iter_mut() { if matches!(st, Step::Silence) { *st = Step::Close; } }
+            sc.2.push(Step::Settle); sc.2.push(Step::Close);
+        }
     }
     let (mut okd, mut errd) = (0u64, 0u64);
     for chunk in scripts.chunks(60) {
